@@ -212,6 +212,25 @@ def bad_bytes_check(res, tier):
     res.count('bad_byte_failures', nbad)
 
 
+def bad_bytes_check_js(res, tier):
+    """the rbql-js stream and bulk readers on invalid / truncated UTF-8 (every position incl. after the last line terminator, every partition)"""
+    import corr_C20
+    cases = corr_C20.bad_byte_cases(tier)
+    lines = [corr_C20.to_line(c) for c in cases]
+    outs = common.run_impl_js(lines)
+    res.evaluations += len(lines)
+    nbad = 0
+    for c, l, o in zip(cases, lines, outs):
+        res.nontrivial.add(('badbyte-js', c[8], c[1]))
+        if o != 'err decode':
+            nbad += 1
+            if nbad <= 3:
+                res.violations.append({'property': 'C15', 'impl': 'js', 'why': 'invalid / truncated UTF-8 did not produce an IO-handling (decoding) error in rbql-js for some chunking or for the bulk read',
+                                       'bytes': c[8].hex(), 'policy': c[1], 'line': l, 'observed': o[:500], 'case_key': 'C15|badbyte-js|%s|%s' % (c[8].hex(), c[1])})
+    res.count('bad_byte_runs_js', len(lines))
+    res.count('bad_byte_failures_js', nbad)
+
+
 FD_SCENARIOS = [
     ('success', 'select a1, a2', 'good', 'file', 'quoted'),
     ('success-join', 'select a1, b2 join JOINFILE on a1 == b1', 'good', 'file', 'quoted'),
@@ -276,6 +295,7 @@ def run(res, tier, seed):
     header_protocol_check(res)
     broken_pipe_check(res)
     bad_bytes_check(res, tier)
+    bad_bytes_check_js(res, tier)
     fd_check(res)
 
 
